@@ -60,6 +60,8 @@ class C03(Prop):
         hc = huge_cases(r)
         for d in (hc if ctx.tier == "thorough" else r.sample(hc, 8)):
             yield ("FRAME " + hx(d), "huge-slice", True)
+        for total, f in big_cases(r):
+            yield ("BIGFRAME %d %s" % (total, hx(f)), "gigabyte-slice", True)
         # valid frames whose checksum is a chosen value (zero, all ones, ff/00 bytes, a preamble byte, literals
         # of the sources), their near-misses and every truncation of their checksum field
         for c in special_crcs(ctx.repo):
@@ -110,6 +112,8 @@ class C13(Prop):
             for s in sfxs:
                 yield ("FRAME " + hx(f + s), "suffix-%d" % min(len(s), 9), True)
                 yield ("SCAN " + hx(f + s), "scan-suffix", True)
+        for total, f in big_cases(r)[::3]:
+            yield ("BIGFRAME %d %s" % (total, hx(f)), "gigabyte-suffix", True)
         for c in special_crcs(ctx.repo)[:12]:
             f = frame_with_crc(r, r.choice([3, 5, 30]), c, r.choice(SUPPORTED))
             yield ("FRAME " + hx(f), "bare", False)
@@ -221,6 +225,8 @@ class C05(Prop):
             for cut in (1, 2, 3, 4):
                 yield ("SCAN " + hx(g0 + f[:-cut]), "special-checksum-truncated", True)
                 yield ("ITER " + hx(f + f[:-cut]), "special-checksum-truncated", True)
+        for total, f in big_cases(r)[::2]:
+            yield ("BIGSCAN %d %s" % (total, hx(f)), "gigabyte-buffer", True)
         for s in damaged_repeats(r, 6 if ctx.tier == "quick" else 20):
             yield ("ITER " + hx(s), "damaged-repeat", True)
             yield ("SCAN " + hx(s), "damaged-repeat", True)
